@@ -579,7 +579,7 @@ class EngineA:
                 rows.add(tuple(row))
             rows = sorted(rows)
             g.shuffle(rows)
-            return {"op": op, "subs": [list(r) for r in rows], "vals": self._gen_vals(len(rows), g, cfg, counter)}
+            return {"op": op, "subs": [list(r) for r in rows], "vals": self._gen_vals(len(rows), g, cfg, counter), "vform": g.choice(["list", "list", "array", "column"])}
         if op == "w_region":
             extra = 0
             if g.random() < cfg["p_ordergrow"] and N < MAX_ORDER:
@@ -1107,7 +1107,12 @@ class EngineA:
         arr = np.array(subs, dtype=int).reshape(len(subs), ncol)
 
         def do_d():
-            w["D"][cast_arr(step, arr.copy())] = (list(vals) if isinstance(vals, list) else vals)
+            v = list(vals) if isinstance(vals, list) else vals
+            if isinstance(vals, list) and step.get("vform") == "column":
+                v = np.array(vals, dtype=float).reshape(-1, 1)  # the form the sparse class asks for
+            elif isinstance(vals, list) and step.get("vform") == "array":
+                v = np.array(vals, dtype=float)
+            w["D"][cast_arr(step, arr.copy())] = v
 
         def do_s():
             rhs = np.array(vals, dtype=float).reshape(-1, 1) if isinstance(vals, list) else vals
